@@ -6,7 +6,6 @@ MessageData built from real message objects.  Model/spec: lean/FeVerif/Model/Ali
 """
 import itertools
 import json
-import math
 
 import numpy as np
 
@@ -45,8 +44,11 @@ def by_name(name):
     return _BY_NAME[name]
 
 
-def has_p1(cls):
-    return 'p1_time' in cls().__dict__
+def has_p1(cls, cache={}):
+    """The selection predicate of the code itself, evaluated on a default instance of the real class."""
+    if cls not in cache:
+        cache[cls] = 'p1_time' in cls().__dict__
+    return cache[cls]
 
 
 # ---- one case -------------------------------------------------------------------------------------------------------
